@@ -36,3 +36,11 @@ CLAIMS['C13'] = dict(
           'guard is released, and nothing else writes the counters. Per-path facts inside one lock region hold for every history and interleaving, including identical '
           'concurrent puts. The capacity arithmetic and file-system/state agreement under racing deletions are not decided.'),
     note='Error exits (`?` failing between a removal and its counter update) are excluded from the per-path obligation and reported as information.')
+CLAIMS['C10'] = dict(
+    technique='static analysis: MIR cut-reachability ordering (write-before-delete), def-use provenance of rename/delete operands, path-effect pairing in set_operation',
+    text=('Decides the consolidation and bookkeeping clauses: inputs are listed for deletion only after the merged shard was written successfully, a finished (returned) shard '
+          'is never deleted, only listed inputs are deleted, returned shards are loaded or freshly written, shard writers name their output by the hash of exactly the bytes '
+          'written, and in set_operation each written record header is paired on every path with one lookup row of its own hash and an index advance of 1 + its record count '
+          '(chunk rows: one per chunk written; chunk table sorted before written). The set algebra of the two-way merge (which records end up in the output) depends on hash '
+          'value comparisons and is not decided.'),
+    note='Process-stop model for ordering facts: completed system calls persist.')
